@@ -1549,10 +1549,14 @@ func (pkg *Package) checkLinesBuildlink3Inclusion(mklines *MkLines) {
 	}
 
 	if trace.Tracing {
+		missing := make(map[string]bool)
 		for packageBl3 := range pkg.bl3 {
 			if includedFiles[packageBl3] == nil {
-				trace.Stepf("%s is included by the package but not by the buildlink3.mk file.", packageBl3)
+				missing[packageBl3.String()] = true
 			}
+		}
+		for _, packageBl3 := range keysSorted(missing) {
+			trace.Stepf("%s is included by the package but not by the buildlink3.mk file.", packageBl3)
 		}
 	}
 }
